@@ -290,14 +290,14 @@ func plainHist(base uint64, from, to, repeats int, tier string, reverse bool) {
 
 // Post: the same order-independent recipes in several fresh processes of the plain
 // package (real map order, real addresses); any difference is a true positive.
-func (propC07) Post(tier string, base uint64) ([]workerViolation, map[string]int) {
+func (propC07) Post(tier string, base uint64) ([]workerViolation, map[string]int, error) {
 	counters := map[string]int{}
 	plain := os.Getenv("VERIF_SIMRUN_PLAIN")
 	if plain == "" {
-		return nil, counters
+		return nil, counters, nil
 	}
 	if _, err := os.Stat(plain); err != nil {
-		return nil, counters
+		return nil, counters, nil
 	}
 	n, procs, reps := 1500, 2, 3
 	if tier == "thorough" {
@@ -337,7 +337,7 @@ func (propC07) Post(tier string, base uint64) ([]workerViolation, map[string]int
 	for j := 0; j < jobs; j++ {
 		r := <-ch
 		if r.err != nil {
-			fatal2("C07 cross-process leg: %v", r.err)
+			return nil, counters, fmt.Errorf("C07 cross-process leg: %v", r.err)
 		}
 		for k, ds := range r.m {
 			if all[k] == nil {
@@ -384,7 +384,7 @@ func (propC07) Post(tier string, base uint64) ([]workerViolation, map[string]int
 			break
 		}
 	}
-	return viols, counters
+	return viols, counters, nil
 }
 
 // pinToProcessHistory looks for one neighbouring case of the cross-process sweep whose
